@@ -64,6 +64,38 @@ def nofit_events(maxres, rng, per_r):
     return out
 
 
+def kidsmax_events(p, rng, n):
+    """children at MAX_RESOLUTION through cell_to_children / uncompact: a second road to ids of the finest level"""
+    ser, org, utils = cells.api()
+    params.import_a5()
+    import a5
+    out = []
+    mr = p["MaxRes"]
+    for k in range(n):
+        r = mr - 1 - (k % 2)
+        c = {"r": r, "f": rng.randrange(p["NF"]), "s": rng.randrange(p["NS"]), "d": [rng.randrange(4) for _ in range(r - 1)]}
+        cid = cells.real_id(c)
+        for how in ("children", "default", "uncompact"):
+            if how == "default" and r != mr - 1:
+                continue
+            e = {"ev": "kidsmax", "r": mr, "from": r, "how": how, "cell": "%016x" % cid, "ok": False, "exc": "", "n": 0, "want": 4 ** (mr - r),
+                 "allres": False, "distinct": False, "parentok": False}
+            try:
+                kids = ser.cell_to_children(cid, mr) if how == "children" else ser.cell_to_children(cid) if how == "default" else a5.uncompact([cid], mr)
+                e["ok"] = True
+                e["n"] = len(kids)
+                e["distinct"] = len(set(kids)) == len(kids)
+                e["allres"] = all(isinstance(x, int) and 0 < x < 2 ** 64 and ser.get_resolution(x) == mr for x in kids)
+                try:
+                    e["parentok"] = all(ser.cell_to_parent(x, r) == cid for x in kids)
+                except Exception:
+                    e["parentok"] = False
+            except Exception as ex:
+                e["exc"] = type(ex).__name__ + ": " + str(ex)
+            out.append(e)
+    return out
+
+
 def count_events(upto, maxres):
     """two rounds: between them the caller scribbles on every list the API handed out (a
     caller owns the lists it gets; later enumerations must not be affected)"""
@@ -73,9 +105,16 @@ def count_events(upto, maxres):
     for rnd in (1, 2):
         handed = []
         for r in range(0, upto + 1):
-            ids = ser.get_res0_cells() if r == 0 and rnd == 2 else ser.cell_to_children(0, r)
+            if rnd == 2 and r >= 1:
+                import a5 as _a5
+                ids = _a5.uncompact(ser.get_res0_cells(), r)        # the other way of enumerating a level
+            else:
+                ids = ser.get_res0_cells() if r == 0 and rnd == 2 else ser.cell_to_children(0, r)
             handed.append(ids)
-            allres = all(ser.get_resolution(i) == r for i in ids)
+            try:
+                allres = all(ser.get_resolution(i) == r and ser.serialize(ser.deserialize(i)) == i for i in ids)
+            except Exception:
+                allres = False
             out.append({"ev": "count", "r": r, "round": rnd, "total": len(ids), "distinct": len(set(ids)),
                         "num": core.me_pair(cell_info.get_num_cells(r)), "allres": allres})
         handed.append(ser.get_res0_cells())
@@ -139,6 +178,7 @@ def run(v):
     for c in pattern_cells(p, rng, 40 if quick else 400):
         events.append(enc_event(c))
     events += nofit_events(p["MaxRes"], rng, 4 if quick else 10)
+    events += kidsmax_events(p, rng, 6 if quick else 40)
     events += count_events(6 if quick else 8, p["MaxRes"])
     tres, bad = core.judge(d, "Trace_Layout", events, timeout=2400)
     v.add_tlc("Trace_Layout", tres, {"events": len(events)})
@@ -152,7 +192,7 @@ def run(v):
         real = [c for c in clauses if c.startswith("C05")]
         if real:
             matcher = {"clause": real[0], "r": e.get("r"), "exc_has": "negative shift count" if "negative shift count" in e.get("exc", "") else ""}
-            v.violation(real[0], {k: e.get(k) for k in ("ev", "r", "f", "s", "d", "S", "exc", "got", "res", "dec") if k in e},
+            v.violation(real[0], {k: e.get(k) for k in ("ev", "r", "f", "s", "d", "S", "exc", "got", "res", "dec", "cell", "how", "n", "allres", "parentok") if k in e},
                         {"check": "C05", "event": e}, matcher)
         elif any(c.startswith("wellformed") for c in clauses):
             raise core.MachineryError("malformed event %r" % e)
